@@ -48,7 +48,8 @@ def sizing(draw):
 
 def weight_value(draw, long_only):
     mag = draw(st.one_of(st.floats(0.05, 1.0).map(lambda x: _r(x, 3)), st.sampled_from([1.0, 0.5, 2.0, 3.0, 0.0]),
-                         st.floats(0.05, 1.0).map(lambda x: _r(x, 2))))
+                         st.floats(0.05, 1.0).map(lambda x: _r(x, 2)),
+                         st.sampled_from([1.0 / 3.0, 0.5172413, 0.123456789])))       # incl. weights with many decimals
     if long_only or draw(st.booleans()):
         return mag
     return -mag
@@ -164,10 +165,14 @@ def full_config(draw, names, start, end, alpha_kinds=('fixed', 'single', 'topn',
         cfg['burn_in'] = v
         labels.append('burn_' + lab)
     cfg['alpha'] = draw(alpha_cfg(list(alpha_kinds), assets, siz['long_only']))
-    pid = draw(st.sampled_from([None, None, None, 'main', '7', 'zz-2']))
+    pid = draw(st.sampled_from([None, None, None, 'main', '7', 'zz-2', 'master']))      # ids are free text (incl. the account's own word)
     if pid:
         cfg['portfolio_id'] = pid
         labels.append('custom_portfolio_id')
+    if draw(st.sampled_from([False, False, False, True])):
+        # a settings dictionary shared between strategies: the sizing keyword of the other mode is passed too (unused)
+        cfg['spare_sizing_kw'] = True
+        labels.append('sizing_keyword_of_the_other_mode_passed_too')
     return cfg, sorted(set(labels))
 
 
